@@ -274,6 +274,9 @@ class Analysis:
 
     def eval_local(self, f, l, pos, env=None, depth=0, stack=None, pair=False):
         stack = stack or frozenset()
+        ov = self.__dict__.get("overrides")
+        if ov and not pair and (f.key, l) in ov:
+            return ov[(f.key, l)]
         ty = f.local_ty(l)
         tr = type_range(ty)
         if tr is None and not pair:
@@ -744,6 +747,12 @@ class Analysis:
                     if a0 is not None and a0[0] >= 1:
                         r = (0, ab - 1)
                 return r
+            if name == "is_power_of_two" and t["a"]:
+                a0 = self.eval_op(f, t["a"][0], pos, env, depth, stack)
+                if a0 is not None and a0[0] == a0[1]:
+                    v = a0[0]
+                    return (1, 1) if v > 0 and v & (v - 1) == 0 else (0, 0)
+                return (0, 1)
             if name == "len" and t["a"]:
                 return self.len_of(f, t["a"][0], pos, env, depth + 1, stack)
             if name in ("capacity", "count"):
